@@ -26,6 +26,13 @@ ConsistentH(rc, mode) ==
    ELSE /\ \A v \in Heavy(rc) : rc.tG[v][3] = rc.tH[v][3]    \* every centre hydrogen is written as an atom
         /\ HAtoms(rc) \subseteq RCNodes(rc)                   \* and no spectator hydrogen is
 
+(* known finding (see known_findings.json): a bond that the rule FORMS between two atoms the substrate already joins by an
+   aromatic bond is written as round(1.5 + 1) = 2 instead of 2.5, so its order changes by 0.5 and not by the rule's 1.
+   Recognised exactly: undoing that rounding makes the change graph the rule's. *)
+Unrounded(I) == [I EXCEPT !.oH = [u \in 1..I.n |-> [v \in 1..I.n |-> IF I.oG[u][v] = 3 /\ I.oH[u][v] = 4 THEN 5 ELSE I.oH[u][v]]]]
+RoundTag(I, tpl) == IF ~SameChanges(I, tpl) /\ SameChanges(Unrounded(I), tpl)
+                    THEN "[bond-formed-on-an-existing-aromatic-bond,1.5+1-rounded-to-2]" ELSE ""
+
 ResClauses(c, k) ==
    LET r == c.results[k]
        I == r.its
@@ -37,7 +44,7 @@ ResClauses(c, k) ==
          <<tag \o "element-or-charge-not-conserved", CentreBalanced(c.tpl) => Conserved(I)>>,
          <<tag \o "hydrogen-or-charge-change-differs-from-the-rule",
               TotalDeltaH(I) = TotalDeltaH(c.tpl) /\ TotalDeltaCh(I) = TotalDeltaCh(c.tpl) /\ SameElements(I)>>,
-         <<tag \o "changed-bonds-differ-from-the-rule", SameChanges(I, c.tpl)>>,
+         <<tag \o "changed-bonds-differ-from-the-rule" \o RoundTag(I, c.tpl), SameChanges(I, c.tpl)>>,
          <<"note:C03Cases:" \o tag \o "not-node-for-node-the-rule-applied-at-the-logged-match",
               (c.mode = "implicit" /\ Len(r.m) = c.rc.n /\ \A v \in 1..c.host.n : c.host.present[v] = 1)
                  => SameITS(I, Apply([n |-> c.host.n, t |-> c.host.t, adj |-> c.host.adj], c.rc, r.m))>> >>
